@@ -69,6 +69,8 @@ def gen_case(tape, tier):
         "max_plans": 120 if tier == "quick" else 400,
     }
     cfg["reorder_inputs"] = bool(tape.coin(0.3, "reorder-inputs"))
+    cfg["entry"] = tape.pick(["map", "map", "map_async"], "entry")  # (map_async only where an executor is in use)
+    cfg["mistaken_call"] = bool(tape.coin(0.15, "mistaken-call"))
     if executor["kind"] != "default-pool" and tape.coin(0.2, "resume-with-default-pool"):
         # first tried without a process pool (debugging), resumed with executor=None, parallel=True
         cfg["resume_executor"] = {"kind": "default-pool", "ex": {"mode": "process", "workers": 2, "start": "fifo", "pickle_at": "submit"}}
@@ -267,7 +269,8 @@ class Attempt:
         self.steps = 0
 
 
-def run_attempt(w, cfg, root, tape, *, attempt, cleanup, interruption=None, inputs_variant=None, new_process=True, keep=None):
+def run_attempt(w, cfg, root, tape, *, attempt, cleanup, interruption=None, inputs_variant=None, new_process=True, keep=None,
+                variant_call=False):
     at = Attempt()
     if new_process:
         C.reset_process_globals()  # the previous attempt's process is gone, and its module state with it
@@ -293,7 +296,7 @@ def run_attempt(w, cfg, root, tape, *, attempt, cleanup, interruption=None, inpu
                 p = keep["p"]  # the program is still running: it resumes with the Pipeline object it already has
                 sim.probe("pipeline_object_reused_on_resume")
             else:
-                p = build_pipeline(w)
+                p = build_pipeline(w, tags=cfg.get("tags"))
             if keep is not None:
                 keep["p"] = p
             inputs = build_inputs(w)
@@ -305,10 +308,25 @@ def run_attempt(w, cfg, root, tape, *, attempt, cleanup, interruption=None, inpu
             k = sim.kernel
 
             def main():
+                kw = dict(run_folder=folder, executor=executor, storage=C.storage_arg(cfg["storage"]), cleanup=cleanup,
+                          fixed_indices=_fixed_arg(cfg), **map_kwargs(w))
                 try:
-                    return p.map(inputs, run_folder=folder, parallel=parallel, executor=executor,
-                                 storage=C.storage_arg(cfg["storage"]), cleanup=cleanup, fixed_indices=_fixed_arg(cfg),
-                                 **map_kwargs(w))
+                    if variant_call:
+                        # a mistaken call in between: other inputs with cleanup=False must be refused, and refusing must
+                        # leave the interrupted run exactly as it was
+                        try:
+                            p.map(_variant_inputs(w, inputs), parallel=parallel, **dict(kw, cleanup=False))
+                        except ValueError:
+                            sim.probe("mistaken_call_refused")
+                        return None
+                    if cfg.get("entry") == "map_async" and parallel:
+                        from sim.loop import run_async
+
+                        async def co():
+                            return await p.map_async(inputs, **kw).task
+
+                        return run_async(k, co)[0]
+                    return p.map(inputs, parallel=parallel, **kw)
                 except BaseException:
                     _drain(k, fs)
                     raise
@@ -493,6 +511,17 @@ def _run_plan(w, cfg, plan, ref, tape, *, seen_digests=None):
                     info["probes"]["dedup_same_tree"] = 1
                     return False
                 seen_digests.add(key)
+            if cfg.get("mistaken_call") and ep:
+                mc = run_attempt(w, dict(cfg, executor={"kind": "sequential"}), root, Tape(recorded=[]), attempt=counter[0] + n_attempt,
+                                 cleanup=False, new_process=True, variant_call=True)
+                same_process[0] = False
+                if not mc.probes.get("mistaken_call_refused"):
+                    # nothing of the interrupted run was there to compare with, so the other call simply ran: the folder is
+                    # now that call's, and the rest of the plan has nothing to say
+                    info["skipped"] = True
+                    info["probes"]["mistaken_call_ran"] = 1
+                    return False
+                info["probes"]["mistaken_call_refused"] = info["probes"].get("mistaken_call_refused", 0) + 1
             fin = run_attempt(w, dict(cfg, executor=cfg["resume_executor"]) if cfg.get("resume_executor") else cfg, root, tape,
                               attempt=counter[0] + n_attempt, cleanup=False, new_process=same_process[0] is False, keep=keep)
             same_process[0] = False
